@@ -121,7 +121,7 @@ class ProgGen:
     def e_num(self, d):
         r = self.r
         k = weighted(r, [('arith', 8), ('neg', 1.5), ('len', 2), ('conv', 2), ('round', 1.5), ('if', 1.5), ('index', 2),
-                         ('minmax', 1), ('sum', 1), ('pow', 0.7), ('andor', 1), ('reduce', 1), ('callfn', 1.5), ('get', 0.7),
+                         ('minmax', 1), ('sum', 1), ('pow', 1.2), ('andor', 1), ('reduce', 1), ('callfn', 1.5), ('get', 0.7),
                          ('index_of', 0.5), ('pop', 0.5)])
         if k == 'arith':
             op = r.choice(['+', '-', '*', '/', '+', '-', '*'])
@@ -161,6 +161,11 @@ class ProgGen:
             return self.call('sum', [['list', [self.expr('num', d - 1) for _ in range(r.randint(0, 4))]]])
         if k == 'pow':
             self.kinds.add('bin:**')
+            x = r.random()
+            if x < 0.12:
+                # a power that fails inside the operator itself
+                return r.choice([['bin', '**', ['num', '0'], ['num', '0']], ['bin', '**', ['neg', ['num', '8']], ['num', '0.5']],
+                                 ['bin', '**', ['num', '0'], ['neg', ['num', '1']]]])
             return ['bin', '**', self.expr('num', 0), ['num', str(r.randint(0, 5))]]
         if k == 'andor':
             op = r.choice(['and', 'or'])
